@@ -27,10 +27,12 @@ pub const TEXTS: [(&str, &str); 8] = [
     ("D", "FUNCTION_BLOCK FbD\nVAR\n  lv : Level := Low;\nEND_VAR\nEND_FUNCTION_BLOCK\n"),
     // the same program as M in another layout and with CRLF line ends (same tree, every offset different)
     ("L", "(* moved *)\r\n\r\nFUNCTION_BLOCK FbM VAR a : INT; END_VAR\r\n\r\n      a := 1;\r\n   undeclared   :=   2;\r\nEND_FUNCTION_BLOCK\r\n"),
-    // S again with white space in front of it (every line number differs) and S with white space after it (nothing but the
-    // text itself differs): what a server that compares texts "modulo white space at the ends" would take for S
+    // S again with white space in front of it (every line number differs): what a server that compares texts "modulo
+    // white space at the ends" would take for S
     ("W", "\n\n  FUNCTION_BLOCK FbS\nVAR\n  a : INT;\nEND_VAR\n\n  a := ;\nEND_FUNCTION_BLOCK\n"),
-    ("T", "FUNCTION_BLOCK FbS\nVAR\n  a : INT;\nEND_VAR\n\n  a := ;\nEND_FUNCTION_BLOCK\n  \n\n"),
+    // T is S up to and including the line of its fault, with a fault of another kind (an invalid character) on the next
+    // line: what a server that re-uses "everything before the first error" would take for S
+    ("T", "FUNCTION_BLOCK FbS\nVAR\n  a : INT;\nEND_VAR\n\n  a := ;\n  a := 1 ? 2;\nEND_FUNCTION_BLOCK\n"),
 ];
 
 fn text_of(k: usize) -> &'static str {
